@@ -21,7 +21,7 @@ RULE = (
     "of the matching arity (lengths 1, 2, frame_size+-1, longer) plus two fixed shapes (a consecutive duplicate; one triple "
     "in two graphs back to back); plus, for the entry points that take an options object with an inferred flow, the same "
     "lattice with that ONE options object already used by an earlier call (completed, or aborted mid-encoding by an "
-    "unsupported term). Oracle: the combination raises (at construction or at "
+    "unsupported term), and with a raw output stream that takes at most 7 bytes per write() and says so. Oracle: the combination raises (at construction or at "
     "the call), or the bytes written decode - by the reference decoder and by pyjelly's own flat parser - to the input "
     "and no captured stream has rows left in its flow when the call returns. "
     "non-trivial = accepted configuration that is not the default (non-delimited, grouped or unspecified logical type, "
@@ -74,7 +74,14 @@ def lattice():
         if pt["flow"] is None and pt["entry"].split(".")[1] in ("flat_stream_to_file", "grouped_stream_to_file", "serialize_options"):
             reuse.append({**pt, "reuse": "after_failure"})
             reuse.append({**pt, "reuse": "after_success"})
-    return pts + with_ns + reuse
+    # the caller's output stream is a raw, unbuffered one that takes only part of what it is handed (RawIOBase.write may
+    # do that and says so in its return value): the call must raise, or everything must have arrived
+    short = []
+    for pt in pts:
+        if pt["flow"] is None and pt["entry"].split(".")[1] in ("flat_stream_to_file", "grouped_stream_to_file", "serialize_options",
+                                                                  "sink_serialize"):
+            short.append({**pt, "sink": "short_write"})
+    return pts + with_ns + reuse + short
 
 
 BINDINGS = [["ex", "http://ex.org/"], ["", "http://ex.org/ns2/"], ["dt", "http://dt.org/"]]
@@ -103,6 +110,33 @@ def bound(pt, obj, integ):
         for p_, ns in BINDINGS:
             obj.bind(p_, rdflib.URIRef(ns))
     return obj
+
+
+class ShortWriteRaw(io.RawIOBase):
+    """A raw output stream that accepts at most `k` bytes per write() and reports how many it took."""
+
+    def __init__(self, k=7):
+        super().__init__()
+        self.k = k
+        self.got = bytearray()
+        self.short_writes = 0
+
+    def writable(self):
+        return True
+
+    def write(self, b):
+        n = min(len(b), self.k)
+        if n < len(b):
+            self.short_writes += 1
+        self.got += bytes(b[:n])
+        return n
+
+    def getvalue(self):
+        return bytes(self.got)
+
+
+def out_stream(pt):
+    return ShortWriteRaw() if pt.get("sink") == "short_write" else io.BytesIO()
 
 
 def earlier_call(pt, stmts, integ, name, opts):
@@ -185,9 +219,13 @@ def execute(pt, stmts):
                 if pt.get("reuse"):
                     earlier_call(pt, stmts, integ, name, opts)
                     cap.streams.clear()
+                if pt.get("sink"):
+                    dest = out_stream(pt)
+                    g.serialize(destination=dest, format="jelly", options=opts)
+                    return ("ok", dest.getvalue(), pt["delimited"], cap.streams, projection)
                 out = g.serialize(format="jelly", encoding="jelly", options=opts)
                 return ("ok", out, pt["delimited"], cap.streams, projection)
-            buf = io.BytesIO()
+            buf = out_stream(pt)
             if name == "sink_serialize":
                 pyj.generic_sink(stmts).serialize(buf)
                 return ("ok", buf.getvalue(), True, cap.streams, projection)
@@ -224,7 +262,8 @@ def check_point(pt, stmts, acc):
     r = execute(pt, stmts)
     if r[0] == "raised":
         if acc is not None:
-            acc.case(case, False, ["refused", "refused_" + type(r[1]).__name__])
+            acc.case(case, False, ["refused", "refused_" + type(r[1]).__name__]
+                     + (["short_writing_output_refused"] if pt.get("sink") else []))
         return None
     _, data, delim_writer, streams, _ = r
     flat_ids = (1, 2)
@@ -232,7 +271,8 @@ def check_point(pt, stmts, acc):
         pt["frame_size"] is not None and pt["frame_size"] < len(stmts) + 1)
     if acc is not None:
         acc.case(case, bool(nondefault), ["accepted", "entry_" + pt["entry"]] + (["accepted_nondefault"] if nondefault else [])
-                 + (["options_reused_" + pt["reuse"]] if pt.get("reuse") else []))
+                 + (["options_reused_" + pt["reuse"]] if pt.get("reuse") else [])
+                 + (["short_writing_output_accepted"] if pt.get("sink") else []))
     lt = pt["logical"]
     kind = "flat" if lt in flat_ids else ("unspecified" if lt == 0 else "grouped") if lt is not None else "default"
     flowname = (pt["flow"] or "inferred").split(":")[0]
